@@ -38,6 +38,9 @@ LEVEL_TEXT = (
 )
 LEVEL_NOTE = "Trusted: the observation function (public API only), Hypothesis; 'any exception' counts as failure of the change."
 TECHNIQUE = "fault enumeration over change positions and failing customisation calls + Hypothesis rule-based histories, compared through an observation function"
+#: thorough tier: seed-dependent tasks are repeated under this many derived seeds (run.py); the listed task functions enumerate fixed domains
+THOROUGH_REPS = 5
+DETERMINISTIC_FNS = ('t_faults', 't_faulty', 't_custom')
 
 CATS = [None, "admin", "staff", "guest"]
 
